@@ -160,7 +160,7 @@ def resolve(mod: Module, name: str, depth=0):
             return ("module", f"{base}.{attr}")
         return None
     if name in mod.assigns:
-        return ("assign", mod, mod.assigns[name][-1])
+        return ("assign", mod, mod.assigns[name][-1], name)
     return None
 
 
